@@ -3,6 +3,7 @@
   order) inside a valid frame stream.
 -/
 import MptModel.Lemmas.CodedQueueRecv
+import MptModel.Lemmas.CodedQueuePeek
 namespace Mpt.CQ
 open Mpt Mpt.Cobs Mpt.Stream Mpt.Codec
 
@@ -12,6 +13,7 @@ inductive DOp where
   | recv
   | shift
   | grow (n : Nat)
+  | peek (mx : Nat) (dst : Bool)
   deriving Repr
 
 def dstep (q : DecodeQueue) : DOp → DecodeQueue
@@ -19,6 +21,7 @@ def dstep (q : DecodeQueue) : DOp → DecodeQueue
   | .recv => match queueRecv q with | .ok (q', _) => q' | _ => q
   | .shift => match queueShift q with | .ok q' => q' | _ => q
   | .grow n => match queueGrow q n with | .ok q' => q' | _ => q
+  | .peek mx dst => match queuePeek q mx dst with | .ok (q', _, _) => q' | _ => q
 
 /-- the invariant and the framing are kept by every receiver operation -/
 theorem dstep_inv (v : Variant) : ∀ (ops : List DOp) (q : DecodeQueue), DInv q → q.codec = some v →
@@ -35,6 +38,11 @@ theorem dstep_inv (v : Variant) : ∀ (ops : List DOp) (q : DecodeQueue), DInv q
       | recv => obtain ⟨q', r, he, hi, _⟩ := queueRecv_inv v q hc h; simp only [dstep, he]; exact hi
       | shift => obtain ⟨q', he, hi, _⟩ := queueShift_inv q h; simp only [dstep, he]; exact hi
       | grow n => obtain ⟨q', he, hi, _⟩ := queueGrow_inv q n h; simp only [dstep, he]; exact hi
+      | peek mx dst =>
+        simp only [dstep]
+        split
+        · rename_i q' r out he; exact (queuePeek_inv v q h hc mx dst q' r out he).1
+        · exact h
     · cases op with
       | feed bytes =>
         obtain ⟨q', c, he, _, _, _, _⟩ := queueFeed_inv q bytes h
@@ -50,6 +58,11 @@ theorem dstep_inv (v : Variant) : ∀ (ops : List DOp) (q : DecodeQueue), DInv q
         split at he
         · cases he; exact hc
         · split at he <;> first | (cases he; exact hc) | cases he
+      | peek mx dst =>
+        simp only [dstep]
+        split
+        · rename_i q' r out he; exact (queuePeek_inv v q h hc mx dst q' r out he).2.1
+        · exact hc
 
 /-- receiver state of a history: the queue, every byte it accepted, the messages it delivered (read
     through `mpt_message_get` right after the delivering `mpt_queue_recv`) -/
@@ -74,6 +87,7 @@ def rstep (s : RSt) : DOp → RSt
     | _ => s
   | .shift => match queueShift s.q with | .ok q' => { s with q := q' } | _ => s
   | .grow n => match queueGrow s.q n with | .ok q' => { s with q := q' } | _ => s
+  | .peek mx dst => match queuePeek s.q mx dst with | .ok (q', _, _) => { s with q := q' } | _ => s
 
 /-- receiver invariant inside a valid stream -/
 structure RInv (v : Variant) (frames : List (List Byte)) (ms : List Msg) (s : RSt) : Prop where
@@ -97,6 +111,7 @@ theorem rstep_fed (s : RSt) (op : DOp) : ∃ more, (rstep s op).fed = s.fed ++ m
     · exact ⟨[], by simp⟩
   | shift => simp only [rstep]; split <;> exact ⟨[], by simp⟩
   | grow n => simp only [rstep]; split <;> exact ⟨[], by simp⟩
+  | peek mx dst => simp only [rstep]; split <;> exact ⟨[], by simp⟩
 
 theorem rstep_inv (v : Variant) (frames : List (List Byte)) (ms : List Msg) (hcar : Carries v frames ms) (s : RSt) (op : DOp)
     (future : List Byte) (hfut : (rstep s op).fed ++ future = frames.flatten) (h : RInv v frames ms s) :
@@ -166,6 +181,18 @@ theorem rstep_inv (v : Variant) (frames : List (List Byte)) (ms : List Msg) (hca
       · split at he <;> first | (cases he; rfl) | cases he
     simp only [rstep, he]
     exact ⟨hi, by rw [hcd]; exact h.codec, k, hgot, hk, by rw [hst, hcont]; exact hph⟩
+  | peek mx dst =>
+    have hsame : (rstep s (.peek mx dst)).fed = s.fed := by
+      simp only [rstep]
+      split <;> rfl
+    have hfed : s.fed ++ future = frames.flatten := by rw [← hsame]; exact hfut
+    simp only [rstep]
+    split
+    · rename_i q' r out he
+      obtain ⟨hi, hcd, _⟩ := queuePeek_inv v s.q h.inv h.codec mx dst q' r out he
+      obtain ⟨hp, _⟩ := queuePeek_phase v frames ms hcar s.q h.codec s.fed future hfed k h.inv hph mx dst q' r out he
+      exact ⟨hi, hcd, k, hgot, hk, hp⟩
+    · exact ⟨h.inv, h.codec, k, hgot, hk, hph⟩
 
 theorem rrun_fed (ops : List DOp) : ∀ s : RSt, ∃ more, (ops.foldl rstep s).fed = s.fed ++ more := by
   induction ops with
